@@ -10,7 +10,7 @@ OPS = ("::insert", "::get", "::get_mut", "::remove", "::clear", "::len")
 
 def run(ctx):
     fx = ctx.facts("default")
-    fixtures.run(ctx, ['variant', 'probe', 'sibling', 'parallel'])
+    fixtures.run(ctx, ['variant', 'probe', 'sibling', 'parallel', 'clear'])
     sents, _ = sentinel.run(ctx, fx, FILE, "hash_map::zipora_hash_map::HashEntry::hash")
     sentinel.completeness(ctx, fx, FILE, "hash_map::zipora_hash_map::HashEntry::hash", sents)
     sentinel.probe_past_tombstones(ctx, fx, FILE, "hash_map::zipora_hash_map::HashEntry::hash", sents)
@@ -20,6 +20,8 @@ def run(ctx):
     # GoldHashMap keeps the cached hash of entries[i] in hash_cache[i]
     parallel.run(ctx, fx, "src/hash_map/gold_hash_map.rs", "hash_map::gold_hash_map::GoldHashMap", "entries", "hash_cache")
     ctx.floor("R-PARALLEL.functions", 2)
+    parallel.clear_completeness(ctx, fx, "src/hash_map/gold_hash_map.rs", "hash_map::gold_hash_map::GoldHashMap")
+    ctx.floor("R-CLEAR.fields", 4)
     ctx.floor("R-TAINT-S.complete.enumerators", 1)
     ctx.floor("R-TAINT-S.sources", 4)
     ctx.floor("R-TAINT-S.sinks", 5)
